@@ -21,7 +21,7 @@ func PartialHelper(name string, data map[string]interface{}, help HelperContext)
 	}
 
 	pf, ok := help.Value("partialFeeder").(func(string) (string, error))
-	if !ok {
+	if !ok || pf == nil {
 		return "", fmt.Errorf("could not found partial feeder from helpers")
 	}
 
